@@ -36,13 +36,13 @@ Lemma all_ws_app a b : all_ws a -> all_ws b -> all_ws (a ++ b).
 Proof. unfold all_ws. intros. rewrite forallb_app. apply andb_true_iff. auto. Qed.
 
 Lemma cents_In bs : Forall legal_block bs -> forall w e, all_ws w -> In e (cents w bs) ->
-  (c_kind e = CWhite /\ all_ws (c_text e)) \/
+  (exists w0, e = ws_centry w0 /\ all_ws w0) \/
   (exists cs, In (BComment cs) bs /\ e = com_centry cs) \/
   (exists cs key b1 sc b2 conts lastl nl, In (BEntity cs key b1 sc b2 conts lastl nl) bs /\
                                           e = ent_centry cs key b1 sc b2 conts lastl).
 Proof.
   induction 1 as [|b rest Hb _ IH]; intros w e Hw Hin; cbn [cents] in Hin.
-  - apply cflush_In in Hin. destruct Hin as [-> _]. left. split; [reflexivity|exact Hw].
+  - apply cflush_In in Hin. destruct Hin as [-> _]. left. exists w. split; [reflexivity|exact Hw].
   - destruct b as [x|cs|cs key b1 sc b2 conts lastl nl].
     + assert (Hx : all_ws x).
       { unfold legal_block in Hb. cbn in Hb. apply andb_true_iff in Hb. apply Hb. }
@@ -51,14 +51,14 @@ Proof.
       * right; left. exists cs. split; [right; exact H1|exact H2].
       * right; right. exists cs, k, a1, s0, a2, cn, ll, nl. split; [right; exact H1|exact H2].
     + apply in_app_or in Hin. destruct Hin as [Hin|[Hin|Hin]].
-      * apply cflush_In in Hin. destruct Hin as [-> _]. left. split; [reflexivity|exact Hw].
+      * apply cflush_In in Hin. destruct Hin as [-> _]. left. exists w. split; [reflexivity|exact Hw].
       * right; left. exists cs. split; [left; reflexivity|symmetry; exact Hin].
       * destruct (IH [10%N] e eq_refl Hin) as [H|[(cs' & H1 & H2)|(cs' & k & a1 & s0 & a2 & cn & ll & nl & H1 & H2)]].
         -- left; exact H.
         -- right; left. exists cs'. split; [right; exact H1|exact H2].
         -- right; right. exists cs', k, a1, s0, a2, cn, ll, nl. split; [right; exact H1|exact H2].
     + apply in_app_or in Hin. destruct Hin as [Hin|[Hin|Hin]].
-      * apply cflush_In in Hin. destruct Hin as [-> _]. left. split; [reflexivity|exact Hw].
+      * apply cflush_In in Hin. destruct Hin as [-> _]. left. exists w. split; [reflexivity|exact Hw].
       * right; right. exists cs, key, b1, sc, b2, conts, lastl, nl. split; [left; reflexivity|symmetry; exact Hin].
       * assert (He : all_ws (eol nl)) by (destruct nl; reflexivity).
         destruct (IH (eol nl) e He Hin) as [H|[(cs' & H1 & H2)|(cs' & k & a1 & s0 & a2 & cn & ll & nl' & H1 & H2)]].
@@ -72,10 +72,9 @@ Lemma centries_dec bs : Forall legal_block bs -> Forall lic_free_block bs ->
 Proof.
   intros Hleg Hlic Hws. apply Forall_forall. intros e He.
   rewrite Forall_forall in Hws, Hlic. pose proof (Hws e He) as Hwe.
-  destruct (cents_In bs Hleg [] e eq_refl He) as [[K W]|[(cs & H1 & ->)|(cs & k & a1 & s0 & a2 & cn & ll & nl & H1 & ->)]].
-  - assert (Hw : is_white e = true) by (unfold is_white; rewrite K; reflexivity).
-    destruct (Hwe Hw) as (w' & T & P). apply (dec_ws m e w' K T); [|exact P].
-    unfold all_ws in W. rewrite T in W. cbn [forallb] in W. apply andb_true_iff in W. apply W.
+  destruct (cents_In bs Hleg [] e eq_refl He) as [(w0 & -> & W)|[(cs & H1 & ->)|(cs & k & a1 & s0 & a2 & cn & ll & nl & H1 & ->)]].
+  - destruct (Hwe eq_refl) as (w' & T & P). cbn in T. subst w0. apply (dec_ws m _ w'); [reflexivity| |exact P].
+    unfold all_ws in W. cbn [forallb] in W. apply andb_true_iff in W. apply W.
   - rewrite Forall_forall in Hleg. pose proof (Hleg _ H1) as L. unfold legal_block in L. cbn in L.
     apply andb_true_iff in L. destruct L as [L1 L2].
     apply (dec_com m _ cs); [destruct cs; [discriminate|discriminate]|exact L2|reflexivity].
